@@ -64,6 +64,12 @@ pub struct Wire {
     pub write_half_dropped: bool,
     /// Who to wake when something is queued for reading (registered when `read` returned `Pending`).
     pub read_waker: crate::WakeSlot,
+    /// Cooperative budget shared by all wires of a world, the way tokio's I/O resources share the budget of the task
+    /// that polls them: every read / write poll takes one unit; when none is left the poll answers `Pending` (and
+    /// asks to be polled again) whatever is queued. The executor refills it before every top-level poll.
+    pub coop: Option<Rc<std::cell::Cell<u32>>>,
+    /// polls answered `Pending` because the budget was used up
+    pub coop_pendings: usize,
 }
 
 pub type WireRef = Rc<RefCell<Wire>>;
@@ -137,12 +143,27 @@ impl ReadHalf for VRead {
             let mut w = wire.borrow_mut();
             w.read_polls += 1;
             w.min_read_buf = w.min_read_buf.min(buf.len());
+            // (like tokio's budget: an operation that turns out not to be ready gives its unit back)
+            let coop = w.coop.clone();
+            if let Some(b) = &coop {
+                if b.get() == 0 {
+                    w.coop_pendings += 1;
+                    cx.waker().wake_by_ref();
+                    return Poll::Pending;
+                }
+            }
+            let spend = |r: Poll<zlink_core::Result<usize>>| {
+                if let (Some(b), Poll::Ready(_)) = (&coop, &r) {
+                    b.set(b.get().saturating_sub(1));
+                }
+                r
+            };
             loop {
                 match w.rx.front() {
                     None => {
                         w.read_polls_when_empty += 1;
                         return if w.eof_when_empty {
-                            Poll::Ready(Ok(0))
+                            spend(Poll::Ready(Ok(0)))
                         } else {
                             w.read_waker.register(cx);
                             Poll::Pending
@@ -154,13 +175,13 @@ impl ReadHalf for VRead {
                         cx.waker().wake_by_ref();
                         return Poll::Pending;
                     }
-                    Some(Rx::Eof) => return Poll::Ready(Ok(0)),
+                    Some(Rx::Eof) => return spend(Poll::Ready(Ok(0))),
                     Some(Rx::Err) => {
-                        return Poll::Ready(Err(match w.err_kind {
+                        return spend(Poll::Ready(Err(match w.err_kind {
                             1 => zlink_core::Error::SocketRead,
                             2 => zlink_core::Error::Io(std::io::Error::new(std::io::ErrorKind::TimedOut, "injected fault")),
                             _ => io_err(),
-                        }))
+                        })))
                     }
                     Some(Rx::Bytes(_)) => {
                         let off = w.rx_off;
@@ -173,7 +194,7 @@ impl ReadHalf for VRead {
                         }
                         if buf.is_empty() {
                             // A zero-length read on a stream socket returns 0.
-                            return Poll::Ready(Ok(0));
+                            return spend(Poll::Ready(Ok(0)));
                         }
                         let n = left.min(buf.len());
                         buf[..n].copy_from_slice(&chunk[off..off + n]);
@@ -184,7 +205,7 @@ impl ReadHalf for VRead {
                             w.rx_off = off + n;
                         }
                         w.bytes_delivered += n;
-                        return Poll::Ready(Ok(n));
+                        return spend(Poll::Ready(Ok(n)));
                     }
                 }
             }
@@ -203,6 +224,14 @@ impl WriteHalf for VWrite {
         poll_fn(move |cx| {
             let mut w = wire.borrow_mut();
             w.write_polls += 1;
+            let coop = w.coop.clone();
+            if let Some(b) = &coop {
+                if b.get() == 0 {
+                    w.coop_pendings += 1;
+                    cx.waker().wake_by_ref();
+                    return Poll::Pending;
+                }
+            }
             match w.write_pending_left {
                 Some(n) if n > 0 => {
                     w.write_pending_left = Some(n - 1);
@@ -212,6 +241,9 @@ impl WriteHalf for VWrite {
                 _ => {}
             }
             w.write_pending_left = None;
+            if let Some(b) = &coop {
+                b.set(b.get().saturating_sub(1));
+            }
             let idx = w.write_calls;
             w.write_calls += 1;
             if w.write_broken || w.fail_write_at == Some(idx) {
